@@ -19,19 +19,39 @@ var concSizes = []int{1, 1024, 4096, 40000, 70000, 140000}
 var concClasses = []string{"rand", "rep", "text"}
 var concBufs = []int{1, 15, 16, 17, 4096, 32768, 100000}
 
+// ConcLevels: (codec, framing, level) of the non-default codec values used concurrently.
+var ConcLevels = [][3]string{
+	{"snappy", "framed", "faster"}, {"snappy", "framed", "better"}, {"snappy", "framed", "best"},
+	{"snappy", "unframed", "faster"}, {"snappy", "unframed", "better"}, {"snappy", "unframed", "best"},
+	{"gzip", "", "-2"}, {"gzip", "", "1"}, {"gzip", "", "9"},
+	{"zstd", "", "1"}, {"zstd", "", "7"}, {"zstd", "", "11"},
+}
+
 // Conc uses ONE codec value from many goroutines at once.  Every goroutine does complete round trips
 // (library writer -> reference decoder, library writer -> library reader, reference encoder -> library
 // reader) with its own payloads and chunkings and checks its own results.  One event per goroutine.
+//
+// The five default codec values (the package-level ones of compress) get the full load; one value per non-default
+// compression level (ConcLevels) gets a reduced load (half the goroutines, a third of the round trips).
 func Conc(seed int64, goroutines, iters int) []trace.Event {
 	unframed := &snappy.Codec{Framing: snappy.Unframed}
 	type cv struct {
-		name, mode string
-		c          compress.Codec
+		name, mode, level string
+		c                 compress.Codec
 	}
-	list := []cv{{"gzip", "", compress.Gzip.Codec()}, {"snappy", "framed", compress.Snappy.Codec()}, {"snappy", "unframed", unframed},
-		{"lz4", "", compress.Lz4.Codec()}, {"zstd", "", compress.Zstd.Codec()}}
+	list := []cv{{"gzip", "", "", compress.Gzip.Codec()}, {"snappy", "framed", "", compress.Snappy.Codec()}, {"snappy", "unframed", "", unframed},
+		{"lz4", "", "", compress.Lz4.Codec()}, {"zstd", "", "", compress.Zstd.Codec()}}
+	for _, l := range ConcLevels {
+		list = append(list, cv{l[0], l[1], l[2], NewCodec(l[0], l[1], l[2])})
+	}
+	fullG, fullIters := goroutines, iters
 	var evs []trace.Event
-	for _, c := range list {
+	for ci, c := range list {
+		ci := ci
+		goroutines, iters := fullG, fullIters
+		if c.level != "" {
+			goroutines, iters = (fullG+1)/2, (fullIters+2)/3
+		}
 		res := make([]trace.Event, goroutines)
 		var wg sync.WaitGroup
 		start := make(chan struct{})
@@ -39,13 +59,13 @@ func Conc(seed int64, goroutines, iters int) []trace.Event {
 			wg.Add(1)
 			go func(g int) {
 				defer wg.Done()
-				rng := rand.New(rand.NewSource(seed*7907 + int64(g)*131 + int64(len(c.name))))
+				rng := rand.New(rand.NewSource(seed*7907 + int64(g)*131 + int64(len(c.name)) + lvSalt(ci)))
 				<-start
 				fails, first := 0, ""
 				nbytes := 0
 				defer func() {
 					if p := recover(); p != nil { // a panic inside a codec: this goroutine's run failed
-						res[g] = trace.Event{"ev": "conc", "codec": c.name, "mode": c.mode, "g": g, "goroutines": goroutines, "iters": iters,
+						res[g] = trace.Event{"ev": "conc", "codec": c.name, "mode": c.mode, "level": c.level, "g": g, "goroutines": goroutines, "iters": iters,
 							"fails": fails + 1, "first": fmt.Sprint("panic: ", p), "bytes": nbytes}
 					}
 				}()
@@ -54,7 +74,7 @@ func Conc(seed int64, goroutines, iters int) []trace.Event {
 					if g%3 == 0 && n > 4096 { // some goroutines hammer the pools with small streams
 						n = 1 + rng.Intn(2048)
 					}
-					class := concClasses[rng.Intn(len(concClasses))]
+					class := classFor(c.name, c.level, concClasses[rng.Intn(len(concClasses))], n)
 					data := Payload(class, seed*100000+int64(g*1000+it), n)
 					nbytes += n
 					if why := roundTrip(c.name, c.c, data, rng); why != "" {
@@ -64,7 +84,7 @@ func Conc(seed int64, goroutines, iters int) []trace.Event {
 						}
 					}
 				}
-				res[g] = trace.Event{"ev": "conc", "codec": c.name, "mode": c.mode, "g": g, "goroutines": goroutines, "iters": iters,
+				res[g] = trace.Event{"ev": "conc", "codec": c.name, "mode": c.mode, "level": c.level, "g": g, "goroutines": goroutines, "iters": iters,
 					"fails": fails, "first": first, "bytes": nbytes}
 			}(g)
 		}
@@ -74,9 +94,12 @@ func Conc(seed int64, goroutines, iters int) []trace.Event {
 	}
 	// pooled objects after lifecycle corner cases, with several users alive at the same time (one goroutine, fixed
 	// interleaving): Close twice (protocol/record_v1.go does that itself), abandon, then k writers / k readers open at once
-	for _, c := range list {
-		rng := rand.New(rand.NewSource(seed*31337 + int64(len(c.name)+len(c.mode))))
+	for ci, c := range list {
+		rng := rand.New(rand.NewSource(seed*31337 + int64(len(c.name)+len(c.mode)) + lvSalt(ci)))
 		fails, first, nbytes, rounds := 0, "", 0, 12
+		if c.level != "" {
+			rounds = 4
+		}
 		func() {
 			defer func() {
 				if p := recover(); p != nil {
@@ -87,7 +110,7 @@ func Conc(seed int64, goroutines, iters int) []trace.Event {
 				}
 			}()
 			for round := 0; round < rounds; round++ {
-				if why := interleaved(c.name, c.c, seed*1000+int64(round), rng, &nbytes); why != "" {
+				if why := interleaved(c.name, c.level, c.c, seed*1000+int64(round), rng, &nbytes); why != "" {
 					fails++
 					if first == "" {
 						first = fmt.Sprintf("round=%d: %s", round, why)
@@ -95,15 +118,32 @@ func Conc(seed int64, goroutines, iters int) []trace.Event {
 				}
 			}
 		}()
-		evs = append(evs, trace.Event{"ev": "conc", "codec": c.name, "mode": c.mode, "g": 1000, "goroutines": 1, "iters": rounds,
+		evs = append(evs, trace.Event{"ev": "conc", "codec": c.name, "mode": c.mode, "level": c.level, "g": 1000, "goroutines": 1, "iters": rounds,
 			"fails": fails, "first": first, "bytes": nbytes, "kind": "interleaved"})
 	}
 	return evs
 }
 
+// classFor: klauspost flate at level 9 needs seconds for more than 64 KiB of one repeated byte (a cost of the wrapped
+// library, not a result): those payloads become dictionary text.
+func classFor(name, level, class string, n int) string {
+	if name == "gzip" && level == "9" && class == "rep" && n > 60000 {
+		return "text"
+	}
+	return class
+}
+
+// lvSalt keeps the random streams of the five default values as they were and gives every level value its own.
+func lvSalt(ci int) int64 {
+	if ci < 5 {
+		return 0
+	}
+	return int64(ci) * 977
+}
+
 // interleaved: some writers and readers are closed twice, then k writers are open at the same time and written to in turn,
 // then k readers likewise; every stream must decode to its own payload.
-func interleaved(name string, c compress.Codec, seed int64, rng *rand.Rand, nbytes *int) string {
+func interleaved(name, level string, c compress.Codec, seed int64, rng *rand.Rand, nbytes *int) string {
 	for i := 0; i < 1+rng.Intn(3); i++ {
 		sk := &sink{budget: -1}
 		w := c.NewWriter(sk)
@@ -127,7 +167,7 @@ func interleaved(name string, c compress.Codec, seed int64, rng *rand.Rand, nbyt
 	ws := make([]io.WriteCloser, k)
 	for i := range ws {
 		n := []int{1, 1500, 4096, 40000, 70000}[rng.Intn(5)]
-		datas[i] = Payload(concClasses[rng.Intn(len(concClasses))], seed*10+int64(i), n)
+		datas[i] = Payload(classFor(name, level, concClasses[rng.Intn(len(concClasses))], n), seed*10+int64(i), n)
 		*nbytes += n
 		sinks[i] = &sink{budget: -1}
 		ws[i] = c.NewWriter(sinks[i])
@@ -162,6 +202,9 @@ func interleaved(name string, c compress.Codec, seed int64, rng *rand.Rand, nbyt
 			p := ParseSnappy(out)
 			if p.Rest != 0 {
 				return fmt.Sprintf("writer %d of %d open at once: output not parsable", i, k)
+			}
+			if bad := p.FirstBad(); bad != "" {
+				return fmt.Sprintf("writer %d of %d open at once: strict snappy reference decoder: %s", i, k, bad)
 			}
 			dec = p.Decoded
 		} else {
@@ -248,8 +291,11 @@ func roundTrip(name string, c compress.Codec, data []byte, rng *rand.Rand) strin
 		if p.Rest != 0 {
 			return "output not parsable by the framer"
 		}
+		if bad := p.FirstBad(); bad != "" {
+			return "strict snappy reference decoder: " + bad
+		}
 		for _, f := range p.Frames {
-			if f.DLen < 0 || f.Prefix != f.CLen {
+			if f.Prefix != f.CLen {
 				return "bad frame in output"
 			}
 		}
